@@ -171,5 +171,6 @@ func runLarge(t *rapid.T) {
 }
 
 func TestLargePlaintexts(t *testing.T) {
-	evid.Check(t, 12, 240, runLarge)
+	// thorough counts are per shard (16 shards): 16 x 16 histories, each moving up to ~100 MiB
+	evid.Check(t, 12, 16, runLarge)
 }
